@@ -192,6 +192,16 @@ def resolveGo (sc : Scopes) : Sx → Option (Sx × Scopes)
       | .sym n _ :: _ => some (.list true (.op o :: args), addToTop sc n)
       | _ => Option.none
     | .QUOTE | .QUASIQUOTE | .ALIAS => some (.list true (.op o :: args), sc)
+    | .CASE =>
+      match args with
+      | [] => some (.list true [.op .CASE], sc)
+      | kf :: clauses =>
+        match resolveGo sc kf with
+        | Option.none => Option.none
+        | some (kf', sc1) =>
+          match resolveClauses sc1 clauses with
+          | some (cl', sc') => some (.list true (.op .CASE :: kf' :: cl'), sc')
+          | Option.none => Option.none
     | _ =>
       match resolveList sc args with
       | some (args', sc') => some (.list true (.op o :: args'), sc')
@@ -216,6 +226,22 @@ def resolveList (sc : Scopes) : List Sx → Option (List Sx × Scopes)
     | some (e', sc1) =>
       match resolveList sc1 r with
       | some (r', sc2) => some (e' :: r', sc2)
+      | Option.none => Option.none
+/-- the clauses of `case`: the key of a clause is data (compared, never evaluated) and stays as written -/
+def resolveClauses (sc : Scopes) : List Sx → Option (List Sx × Scopes)
+  | [] => some ([], sc)
+  | c :: r =>
+    match c with
+    | .list true (k :: cons) =>
+      match resolveList sc cons with
+      | Option.none => Option.none
+      | some (cons', sc1) =>
+        match resolveClauses sc1 r with
+        | some (r', sc2) => some (.list true (k :: cons') :: r', sc2)
+        | Option.none => Option.none
+    | _ =>
+      match resolveClauses sc r with
+      | some (r', sc2) => some (c :: r', sc2)
       | Option.none => Option.none
 end
 
